@@ -144,7 +144,7 @@ def check_case(case, impl, model):
         elif ex["neutral"] and val != ex["val"]:
             out.append(("spec", i, "default mode, input cut into several calls: '%s' accepted but the value %s differs from the original document's %s" % (kind, val, ex["val"])))
         return out
-    i = 1
+    i = ex.get("at", 1)
     if i >= len(impl) or " ## " not in impl[i]:
         return out
     err, end, val = tokoracle.fields(impl[i])
@@ -183,6 +183,9 @@ def gen(rng, tier):
         for flags, mode in ((0, "default"), (STRICT, "base-strict"), (STRICT | TRAIL, "base-strict")):
             yield {"lines": ["new 32 %d" % flags, "pz " + hexs(base)], "keep": 2, "noshrink": True,
                    "expect": {"mode": "default", "kind": "none", "neutral": True, "val": a["dump"]}}
+            pre = rng.choice([b"['ab", b"{'k", b'["a', b"{'a':'b", b"[1,'", b"/* c"])
+            yield {"lines": ["new 32 %d" % flags, "p " + hexs(pre), "reset", "pz " + hexs(base)], "keep": 3, "noshrink": True,
+                   "expect": {"mode": "default", "kind": "none", "neutral": True, "val": a["dump"], "at": 3}}
         for kind, neutral, text, how in variants(rng, toks, cap):
             if how is not None:
                 yield {"lines": ["new 32 %d" % (STRICT | TRAIL), "pz " + hexs(text)], "keep": 2, "noshrink": True,
@@ -196,6 +199,14 @@ def gen(rng, tier):
                        "keep": 1, "noshrink": True, "expect": {"mode": "strict-chunked", "kind": kind}}
             yield {"lines": ["new 32 0", "pz " + hexs(text)], "keep": 2, "noshrink": True,
                    "expect": {"mode": "default", "kind": kind, "neutral": neutral, "val": a["dump"]}}
+            if rng.chance(0.25):
+                # the same verdicts from a tokener that was used before: a parse abandoned inside a token (single- or
+                # double-quoted string or name, comment, number, escape), then json_tokener_reset (round-6 seed C16-11)
+                pre = rng.choice([b"['ab", b"{'k", b"'x\\", b'["a', b"/* c", b"[1e", b'"\\ud83d', b"{'a':'b", b"[1,'"])
+                yield {"lines": ["new 32 0", "p " + hexs(pre), "reset", "pz " + hexs(text)], "keep": 3, "noshrink": True,
+                       "expect": {"mode": "default", "kind": kind, "neutral": neutral, "val": a["dump"], "at": 3}}
+                yield {"lines": ["new 32 %d" % STRICT, "p " + hexs(pre), "reset", "pz " + hexs(text)], "keep": 3, "noshrink": True,
+                       "expect": {"mode": "strict", "kind": kind, "at": 3}}
             # default mode accepts the extension however the text is cut into calls (byte by byte, and cut once at a
             # random position): the token scratch state that default mode edits - e.g. the trimmed digit-less exponent -
             # has to survive a chunk boundary
